@@ -61,6 +61,8 @@ var guardedFields = map[string]string{
 	"github.com/pion/turn/v5/internal/allocation.Allocation.channelBindings": "channelBindingsLock",
 	"github.com/pion/turn/v5/internal/allocation.Manager.allocations":        "lock",
 	"github.com/pion/turn/v5/internal/allocation.Manager.reservations":       "lock",
+	// "Guarded by AllocationManager lock": a mutex of another struct is named by its full key
+	"github.com/pion/turn/v5/internal/allocation.Allocation.tcpConnections": "github.com/pion/turn/v5/internal/allocation.Manager.lock",
 	"github.com/pion/turn/v5/internal/client.TransactionMap.trMap":           "mutex",
 	"github.com/pion/turn/v5/internal/client.binding._refreshedAt":           "mutex",
 	"github.com/pion/turn/v5/internal/client.bindingManager.chanMap":         "mutex",
@@ -84,6 +86,10 @@ var guardedCalls = map[string]string{
 // to them needs it
 var callerHolds = map[string]string{
 	"github.com/pion/turn/v5/internal/client.bindingManager.assignChannelNumber": "github.com/pion/turn/v5/internal/client.bindingManager.mutex",
+	// the manager calls these with its lock held (DeleteAllocation, Close, addTCPConnection, RemoveTCPConnection)
+	"github.com/pion/turn/v5/internal/allocation.Allocation.removeTCPConnection": "github.com/pion/turn/v5/internal/allocation.Manager.lock",
+	"github.com/pion/turn/v5/internal/allocation.Allocation.Close":               "github.com/pion/turn/v5/internal/allocation.Manager.lock",
+	"github.com/pion/turn/v5/internal/allocation.Manager.isDupeTCPConnection":    "github.com/pion/turn/v5/internal/allocation.Manager.lock",
 }
 
 func (t *tr) needFor(lockKey string, at token.Pos) string {
@@ -152,6 +158,9 @@ func (t *tr) guardedAccess(se *ast.SelectorExpr) (string, bool) {
 	}
 	recv := strings.TrimPrefix(s.Recv().String(), "*")
 	if mu, ok := guardedFields[recv+"."+s.Obj().Name()]; ok {
+		if strings.Contains(mu, "/") {
+			return mu, true
+		}
 		return recv + "." + mu, true
 	}
 	return "", false
